@@ -15,6 +15,11 @@ API (used by checks/c01.py, checks/c02.py; meant to be reused by C03/C05/C13/C14
                   the reference interpreter, not this field, is the oracle), .kind
   hostile_programs() -> [Program]   C02 family: boundary-value calls of stdlib entry points (no sexp twin
                                     unless the call is inside Mini's subset; `.sexp` is None then)
+  batchable(p) / batch_source([programs]) -> one Dora compile unit holding several programs as inline modules; its main
+                                    runs the member named by argv(0) (one link per back end instead of one per program)
+  op_lines(prog) -> [dict(fn, line, op, kind)]   C14: every operation that can trap, with function and source line;
+                                    `drv_c01 <fuel> pos` prints the line and call chain where the reference run ended
+  single_fault_mutants(seed, index, count) -> [RawProgram with .fault/.fault_line]   C05: one type fault each, must be rejected
   AST helpers: class N (node), ty constructors T_I32..., `emit_dora(decls)`, `emit_sexp(name, decls)`,
   `lit(ty, v)`, `call(...)` ... so a later check can assemble programs by hand and still get both twins.
   Node `.line` is filled in by `emit_dora` (1-based line of the statement that contains the node).
@@ -1977,6 +1982,129 @@ def batch_source(programs):
     out.append('    }')
     out.append('}')
     return '\n'.join(out) + '\n'
+
+
+# ----------------------------------------------------------------------------------------------- API for C14 / C05
+TRAPPING_OPS = {'add', 'sub', 'mul', 'div', 'mod', 'shl', 'shr', 'sar'}
+
+
+def walk(n, f):
+    """pre-order walk over an AST node (N), calling f(node); descends into blocks, arms, lambdas, field inits"""
+    if not isinstance(n, N):
+        return
+    f(n)
+    for a in n.a:
+        if isinstance(a, N):
+            walk(a, f)
+        elif isinstance(a, list):
+            for x in a:
+                if isinstance(x, N):
+                    walk(x, f)
+                elif isinstance(x, tuple):
+                    for y in x:
+                        walk(y, f)
+
+
+def program_functions(decls):
+    """[(qualified name, decl dict)] of every function / method body in a program"""
+    out = []
+    for d in decls:
+        if d['k'] == 'fn':
+            out.append((d['name'], d))
+        elif d['k'] in ('impl', 'trait'):
+            for m in d['methods']:
+                if m.get('body') is not None:
+                    out.append(('%s::%s' % (d.get('type') or d['name'], m['name']), m))
+    return out
+
+
+def op_lines(prog):
+    """C14: every operation that can trap, with the function that contains it and its source line (lines are those
+    of prog.dora; one statement per line).  -> [dict(fn, line, op, kind)]; kind in
+    checked-arith | neg | index | assert | call"""
+    res = []
+    for name, d in program_functions(prog.decls):
+        def f(n, name=name):
+            if n.k == 'bin' and n.a[0] in TRAPPING_OPS:
+                res.append(dict(fn=name, line=n.line, op=n.a[0], kind='checked-arith'))
+            elif n.k == 'un' and n.a[0] == 'neg':
+                res.append(dict(fn=name, line=n.line, op='neg', kind='neg'))
+            elif n.k == 'index':
+                res.append(dict(fn=name, line=n.line, op='index', kind='index'))
+            elif n.k == 'assert':
+                res.append(dict(fn=name, line=n.line, op='assert', kind='assert'))
+            elif n.k in ('call', 'meth', 'callv', 'scall'):
+                res.append(dict(fn=name, line=n.line, op=(n.a[0] if n.k != 'scall' else n.a[1]) if n.k != 'callv' else '<lambda>',
+                                kind='call'))
+        walk(d['body'], f)
+    return res
+
+
+FAULTS = ['int-width', 'bool-for-int', 'if-cond-int', 'arity', 'unknown-field', 'assign-immutable', 'unknown-variable']
+
+
+def single_fault_mutants(seed, index, count=4):
+    """C05: type-incorrect variants of gen_program(seed, index), each with exactly ONE fault of a named kind that
+    the front end must reject (the original is well typed).  -> [RawProgram with .fault, .fault_line]
+    Faults: int-width (Int32 literal where Int64 is required or vice versa), bool-for-int, if-cond-int,
+    arity (last argument of a call of a helper dropped), unknown-field, assign-immutable, unknown-variable."""
+    import copy
+    base = gen_program(seed, index)
+    r = random.Random('mut/%s/%s' % (seed, index))
+    out = []
+    kinds = FAULTS[:]
+    r.shuffle(kinds)
+    for kind in kinds:
+        if len(out) >= count:
+            break
+        decls = copy.deepcopy(base.decls)
+        main = [d for d in decls if d['k'] == 'fn' and d['name'] == 'main'][0]
+        cands = []
+
+        def f(n):
+            if kind in ('int-width', 'bool-for-int') and n.k == 'bin' and n.a[0] in ('add', 'sub', 'mul') and n.ty in INT_RANGE:
+                cands.append(n)
+            elif kind == 'if-cond-int' and n.k == 'if':
+                cands.append(n)
+            elif kind == 'arity' and n.k == 'call' and isinstance(n.a[0], str) and n.a[0].startswith('h') and len(n.a) > 1:
+                cands.append(n)
+            elif kind == 'unknown-field' and n.k == 'field':
+                cands.append(n)
+            elif kind == 'unknown-variable' and n.k == 'var' and n.a[0] != 'self':
+                cands.append(n)
+            elif kind == 'assign-immutable' and n.k == 'let' and not n.a[3] and n.a[1] in INT_RANGE:
+                cands.append(n)
+        walk(main['body'], f)
+        if not cands:
+            continue
+        n = r.choice(cands)
+        if kind == 'int-width':
+            other = T_I64 if n.ty == T_I32 else T_I32
+            n.a[2] = lit(other, 1)
+        elif kind == 'bool-for-int':
+            n.a[2] = lit(T_BOOL, True)
+        elif kind == 'if-cond-int':
+            n.a[0] = lit(T_I64, 1)
+        elif kind == 'arity':
+            n.a.pop()
+        elif kind == 'unknown-field':
+            n.a[1] = 'no_such_field'
+        elif kind == 'unknown-variable':
+            n.a[0] = 'no_such_variable'
+        elif kind == 'assign-immutable':
+            # append an assignment to the immutable variable right after main's statements
+            main['body'].a.append(assign(var(n.a[0], n.a[1]), lit(n.a[1], 1)))
+        try:
+            text = emit_dora(decls)
+        except Exception:
+            continue
+        rp = RawProgram('%s_mut_%s' % (base.name, kind.replace('-', '')), '', 'mutant', kind)
+        rp.dora = text
+        rp.fault = kind
+        rp.fault_line = n.line
+        rp.kind = 'mutant'
+        out.append(rp)
+    return out
 
 if __name__ == '__main__':
     import sys
